@@ -42,15 +42,13 @@ META = {
         "by proof; the lru_cache on to_scale belongs to C08; input formats belong to C02 (jd, mjd and datetime inputs are used here)."),
 }
 
-THEOREMS_FINAL = [
+THEOREMS = [
     "taiutc_wf", "taiutc_loaded_is_text", "taiutc_matches_published", "constants_match_published",
     "row_unique", "utc_tai_defining", "gps_tai_19", "tt_tai_32184", "tcg_tt_LG", "hop_inverse_exact",
     "utc_tai_utc", "utc_tai_utc_exact_on_leap_rows", "tai_utc_tai",
-    "routes_total", "route_is_tree_path", "two_hop_path_independent_exact", "two_hop_path_independent",
-    "roundtrip_all_pairs", "to_scale_pointwise", "c01_row_by_float_sum_refuted",
+    "routes_total", "route_is_tree_path", "two_hop_path_independent_exact", "two_hop_path_independent_partial",
+    "roundtrip_all_pairs", "to_scale_pointwise", "c01_row_by_float_sum_refuted", "utc_tai_utc_boundary_refuted",
 ]
-
-THEOREMS = ["taiutc_wf", "taiutc_loaded_is_text", "taiutc_matches_published", "constants_match_published"]
 
 REQ = "From Verif Require Import Lib.Dyadic Model.C01_Scales."
 SCALES = ["utc", "tai", "gps", "tt", "tcg"]
@@ -282,7 +280,7 @@ def run(ctx):
 
     # ---- A. every boundary x offsets x 25 pairs (scalar; quick: reduced offsets for non-utc sources)
     for a in SCALES:
-        offs = OFFS_US if (a == "utc" or not quick) else [1, 10, 20, 50, 1000, 10 ** 6]
+        offs = OFFS_US if (a == "utc" or not quick) else [1, 20, 1000, 10 ** 6]
         eps = boundary_epochs(rows, a, offs, rng, quick)
         for jd1, jd2, label in eps:
             form = "scalar" if rng.random() < 0.8 else rng.choice(["len1", "mjd"])
@@ -344,8 +342,8 @@ def run(ctx):
 
     # ---- C. property oracle on the implementation: A->B->A and A->B->C vs A->C within 10 ns, for A-epochs
     #         that are images of valid UTC instants (never inside an inserted leap second)
-    n_c = 40 if quick else 400
-    base = random_epochs(rng, n_c) + [e for e in boundary_epochs(rows[13:], "utc", [0, 100, 10 ** 6], rng, quick)][: (80 if quick else 2000)]
+    n_c = 25 if quick else 60
+    base = random_epochs(rng, n_c) + [e for e in boundary_epochs(rows[13:], "utc", [0, 100, 10 ** 6], rng, quick)][: (35 if quick else 140)]
     rng.shuffle(base)
     triples = [(a, b, c) for a in SCALES for b in SCALES for c in SCALES]
     for jd1, jd2, label in base:
@@ -353,7 +351,7 @@ def run(ctx):
             u = mk_time("utc", jd1, jd2, "scalar")
         except Exception as e:
             continue
-        picks = triples if not quick else rng.sample(triples, 25)
+        picks = triples if not quick else rng.sample(triples, 15)
         starts = {}
         for a, b, c in picks:
             if a not in starts:
@@ -385,7 +383,7 @@ def run(ctx):
         for k, r in enumerate(rows):
             b = float(r[0])
             sweep = [(b, us_ / DAY_US) for us_ in range(0, 120)] + [(b - 1.0, 1.0 - us_ / DAY_US) for us_ in range(1, 120)]
-            sweep += [(b, ms * 1000 / DAY_US) for ms in range(1, 2000, 7)] + [(b - 1.0, 1.0 - ms * 1000 / DAY_US) for ms in range(1, 2000, 7)]
+            sweep += [(b, ms * 1000 / DAY_US) for ms in range(1, 2000, 13)] + [(b - 1.0, 1.0 - ms * 1000 / DAY_US) for ms in range(1, 2000, 13)]
             j1 = np.array([s[0] for s in sweep])
             j2 = np.array([s[1] for s in sweep])
             from midgard.data.time import Time
@@ -400,7 +398,7 @@ def run(ctx):
 
     # ---------------------------------------------------------------- evaluate in Coq
     ctx.log(f"implementation runs done: {len(log.cases)} conversions, {len(rt_cases)} round trips, {len(same_cases)} path cases")
-    size = 250
+    size = 500
     vs = ctx.coq_cases(emit.shard_terms("check_conv", log.cases, size), REQ)
     flat = emit.flatten_verdicts(vs, len(log.cases))
     vr = ctx.coq_cases(emit.shard_terms("check_rt_utc", rt_cases, 400), REQ)
@@ -457,11 +455,14 @@ def decide(ctx, log, flat, rt_meta, flat_rt, same_meta, flat_same):
     for v, rep in zip(flat, log.meta):
         if v == 0:
             continue
+        if v == 5:
+            ctx.count("near-discontinuity(non-utc input within 1 ns of a leap-second edge)")
+            continue
         if v == 2:
             n_quirk += 1
             ctx.count("quirk:row_by_float_sum")
             ctx.finding(QUIRK_FLOAT, WHAT_FLOAT, add_expectation(ctx, rep))
-        else:
+        elif len(ctx.violations) < 25:
             ctx.violation(add_expectation(ctx, rep), what=f"{rep['from_scale']}->{rep['to_scale']} differs from the model by more than 1 ns "
                           f"(jd1={rep['jd1_dec']}, jd2={rep['jd2_dec']}, observed jd2={rep['observed_jd2_dec']})")
     for name, fl, meta in (("roundtrip", flat_rt, rt_meta), ("path", flat_same, same_meta)):
@@ -472,6 +473,9 @@ def decide(ctx, log, flat, rt_meta, flat_rt, same_meta, flat_same):
         for v, rep in zip(fl, meta):
             if v == 0:
                 continue
+            if v == 4:
+                ctx.count("R:outside-domain(skipped UTC label)")
+                continue
             part_v = [flat[i] for i in rep["parts"]]
             if any(p == 2 for p in part_v):
                 ctx.count("quirk:row_by_float_sum(route)")
@@ -481,7 +485,7 @@ def decide(ctx, log, flat, rt_meta, flat_rt, same_meta, flat_same):
             elif v == 3:
                 ctx.count("quirk:inverse_drift_boundary")
                 ctx.finding(QUIRK_DRIFT, WHAT_DRIFT, rep)
-            else:
+            elif len(ctx.violations) < 25:
                 ctx.violation(rep, what=f"{rep['route']} differs by more than 10 ns")
 
 
@@ -503,18 +507,51 @@ def add_expectation(ctx, rep):
     return rep
 
 
+PUBLISHED_DATES = [  # start dates of the published TAI-UTC entries (Spec/C01_IersTaiUtc.v); only used to place search epochs
+    (1961, 1, 1), (1961, 8, 1), (1962, 1, 1), (1963, 11, 1), (1964, 1, 1), (1964, 4, 1), (1964, 9, 1), (1965, 1, 1), (1965, 3, 1),
+    (1965, 7, 1), (1965, 9, 1), (1966, 1, 1), (1968, 2, 1), (1972, 1, 1), (1972, 7, 1), (1973, 1, 1), (1974, 1, 1), (1975, 1, 1),
+    (1976, 1, 1), (1977, 1, 1), (1978, 1, 1), (1979, 1, 1), (1980, 1, 1), (1981, 7, 1), (1982, 7, 1), (1983, 7, 1), (1985, 7, 1),
+    (1988, 1, 1), (1990, 1, 1), (1991, 1, 1), (1992, 7, 1), (1993, 7, 1), (1994, 7, 1), (1996, 1, 1), (1997, 7, 1), (1999, 1, 1),
+    (2006, 1, 1), (2009, 1, 1), (2012, 7, 1), (2015, 7, 1), (2017, 1, 1)]
+REQ_ORACLE = "From Verif Require Import Lib.Dyadic Model.C01_Oracle."
+
+
 def search_failing_input(ctx, rows):
-    """Proof obligations broke and the correspondence found nothing: directed search with the property oracle on the implementation
-    (round trips within 10 ns, TAI-UTC against the hand-typed history at mid-row epochs)."""
+    """Proof obligations broke and the correspondence found nothing (the model follows the regenerated data): directed search
+    with the property oracle stated on the hand-typed Spec only (Model/C01_Oracle.v): TAI-UTC at the start, one second
+    before the start, and the middle of every published entry; TAI-GPS, TT-TAI, TCG-TT at a few epochs."""
     from midgard.data.time import Time
-    published = [(2437300.5, 1.4228180, 37300, 0.001296), (2441317.5, 10.0, 0, 0.0), (2457754.5, 37.0, 0, 0.0)]
-    for k, r in enumerate(rows):
-        mid = float((r[0] + min(r[1], r[0] + 4000)) / 2)
-        t = Time(mid, val2=0.25, scale="utc", fmt="jd")
-        back = t.tai.utc
-        err = ((back.jd1 - t.jd1) + (back.jd2 - t.jd2)) * 86400
-        if abs(err) > 1e-8:
-            return dict(kind="roundtrip", what="utc->tai->utc differs by more than 10 ns", jd1=mid, jd2=0.25, error_s=err)
+    ok, out = core.make(["theories/Model/C01_Oracle.vo"], timeout=600)
+    cases, meta = [], []
+
+    def add(kind, a, b, jd1, jd2):
+        t = Time(float(jd1), val2=float(jd2), scale=a, fmt="jd")
+        r = getattr(t, b)
+        cases.append(emit.pair(emit.z(kind), emit.pair(emit.dy(t.jd1), emit.dy(t.jd2)), emit.pair(emit.dy(r.jd1), emit.dy(r.jd2))))
+        meta.append(dict(kind="definition", from_scale=a, to_scale=b, jd1=float(t.jd1).hex(), jd2=float(t.jd2).hex(),
+                         jd1_dec=repr(float(t.jd1)), jd2_dec=repr(float(t.jd2)), observed_jd2_dec=repr(float(r.jd2)),
+                         observed_delta_s=((float(r.jd1) - float(t.jd1)) + (float(r.jd2) - float(t.jd2))) * 86400,
+                         what=f"{a}->{b} differs from the published definition (Spec/C01_IersTaiUtc.v) by more than 1 ns",
+                         how=f"Time({float(jd1)!r}, val2={float(jd2)!r}, scale={a!r}, fmt='jd').{b}"))
+
+    starts = [(datetime(y, m, d) - datetime(2000, 1, 1)).days + 2451544.5 for y, m, d in PUBLISHED_DATES]
+    for k, b in enumerate(starts):
+        nxt = starts[k + 1] if k + 1 < len(starts) else b + 3000
+        add(0, "utc", "tai", b, 0.0)
+        add(0, "utc", "tai", b, 0.5)
+        add(0, "utc", "tai", b + (nxt - b) // 2, 0.25)
+        add(0, "utc", "tai", nxt - 1, 1 - 1.0 / 86400)
+    for jd in (2441317.5, 2451545.0, 2460000.5, 2480000.5):
+        add(1, "tai", "gps", jd, 0.125)
+        add(2, "tai", "tt", jd, 0.125)
+        add(3, "tt", "tcg", jd, 0.125)
+    vs = ctx.coq_cases(emit.shard_terms("check_published", cases, 400), REQ_ORACLE)
+    flat = emit.flatten_verdicts(vs, len(cases))
+    if flat is None:
+        return None
+    for v, rep in zip(flat, meta):
+        if v != 0:
+            return rep
     return None
 
 
@@ -529,4 +566,6 @@ def replay(ctx, path):
         print("model (spec, float-quirk) [days]:",
               ctx.coq_eval(REQ, f"expect_conv {emit.s(rep['from_scale'])} {emit.s(rep['to_scale'])} {emit.dy(t.jd1)} {emit.dy(t.jd2)}"))
     print("re-run: VERIF_SEED=%s /venv/bin/python run_check.py C01 %s" % (rep.get("seed"), rep.get("tier", "quick")))
+    import shutil
+    shutil.rmtree(ctx.work, ignore_errors=True)
     return 0
